@@ -253,25 +253,24 @@ def m_ok_or(ex, st, func, args, argtys, dest_ty):
     return [("ret", ok(e.fields[0]) if e.variant == 1 else err(args[1]), None)]
 
 
-def call_closure(ex, st, clos, cargs):
-    """Run a closure body to completion on a scratch state; returns [(value, cond)]
-    for returning paths and [("panic", msg, cond)] entries for panics."""
-    data = clos.data if isinstance(clos, Opaque) else None
+def closure_target(ex, clos, cargs):
+    """-> (Fn, args) for calling a closure / fn-item value with cargs."""
+    if isinstance(clos, Ref):
+        clos = clos.get()
     if isinstance(clos, Opaque) and clos.what == "zst":
         m = re.search(r"\{closure@(.*?)\}", clos.data)
         path = "{closure@%s}" % m.group(1) if m else None
         captures = []
         fnitem = None
         if path is None:
-            # a function item used as a value: `ZeroSized: fn(..) {path}`
             mm = re.search(r"\{([^{}]+)\}\s*$", clos.data)
             fnitem = mm.group(1) if mm else None
     elif isinstance(clos, Opaque) and clos.what == "closure":
         path, captures, fnitem = clos.data["path"], clos.data["captures"], None
     else:
         raise Unsupported("callee value %r" % (clos,))
-    target = None
     if path is not None:
+        target = None
         for name, f in ex.fns.items():
             if f.kind == "fn" and f.params and norm_ty(f.params[0][1]).lstrip("&").replace("mut", "") == norm_ty(path):
                 target = f
@@ -280,14 +279,18 @@ def call_closure(ex, st, clos, cargs):
             raise Unsupported("closure body for %s not found" % path)
         env = Struct(captures)
         envty = target.params[0][1]
-        first = Ref([env]) if envty.startswith("&") else env
-        args = [first] + list(cargs)
-    else:
-        target = ex.resolve(fnitem, ["?"] * len(cargs), "?") if fnitem else None
-        if target is None:
-            # enum-variant constructor used as fn item, e.g. `sat::ErrorKind::ParseInt`
-            raise Unsupported("fn item %s" % fnitem)
-        args = list(cargs)
+        first = Ref([env], (), True) if envty.startswith("&") else env
+        return target, [first] + list(cargs)
+    target = ex.resolve(fnitem, ["?"] * len(cargs), "?") if fnitem else None
+    if target is None:
+        raise Unsupported("fn item %s" % fnitem)
+    return target, list(cargs)
+
+
+def call_closure(ex, st, clos, cargs):
+    """Run a (pure) closure body to completion on a scratch state; returns outcomes.
+    Only for predicates that do not mutate captured state."""
+    target, args = closure_target(ex, clos, cargs)
     from .mirexec import State
     sub = State()
     sub.pc = list(st.pc)
@@ -308,6 +311,12 @@ def call_closure(ex, st, clos, cargs):
     return out
 
 
+def in_state_call(ex, clos, cargs, cont=None):
+    """Outcome that runs the closure in the caller's own state (mutations and forks safe)."""
+    target, args = closure_target(ex, clos, cargs)
+    return [("call", (target, args, cont), None)]
+
+
 def through_closure(outs, wrap):
     res = []
     for kind, val, cond in outs:
@@ -320,7 +329,7 @@ def m_unwrap_or_else(ex, st, func, args, argtys, dest_ty):
     e = args[0]
     if e.variant == 1:
         return [("ret", e.fields[0], None)]
-    return call_closure(ex, st, args[1], [Struct([])] if False else [])
+    return in_state_call(ex, args[1], [])
 
 
 @model(r"Option::<.*>::ok_or_else::<.*>$")
@@ -328,11 +337,7 @@ def m_ok_or_else(ex, st, func, args, argtys, dest_ty):
     e = args[0]
     if e.variant == 1:
         return [("ret", ok(e.fields[0]), None)]
-    try:
-        return through_closure(call_closure(ex, st, args[1], []), err)
-    except Unsupported:
-        # error constructors only build the error value; its content is not part of any claim
-        return [("ret", err(Opaque("constructed-error")), None)]
+    return in_state_call(ex, args[1], [], err)
 
 
 @model(r"Result::<.*>::map_err::<.*>$")
@@ -340,11 +345,7 @@ def m_map_err(ex, st, func, args, argtys, dest_ty):
     e = args[0]
     if e.variant == 0:
         return [("ret", e, None)]
-    try:
-        return through_closure(call_closure(ex, st, args[1], [Struct([e.fields[0]])] if False else [e.fields[0]]), err)
-    except Unsupported:
-        # error constructors only build the error value; its content is not part of any claim
-        return [("ret", err(Opaque("mapped-error")), None)]
+    return in_state_call(ex, args[1], [e.fields[0]], err)
 
 
 @model(r"Option::<.*>::map::<.*>$")
@@ -352,7 +353,7 @@ def m_opt_map(ex, st, func, args, argtys, dest_ty):
     e = args[0]
     if e.variant == 0:
         return [("ret", none(), None)]
-    return through_closure(call_closure(ex, st, args[1], [e.fields[0]]), some)
+    return in_state_call(ex, args[1], [e.fields[0]], some)
 
 
 @model(r"Result::<.*>::map::<.*>$")
@@ -360,7 +361,7 @@ def m_res_map(ex, st, func, args, argtys, dest_ty):
     e = args[0]
     if e.variant == 1:
         return [("ret", e, None)]
-    return through_closure(call_closure(ex, st, args[1], [e.fields[0]]), ok)
+    return in_state_call(ex, args[1], [e.fields[0]], ok)
 
 
 @model(r"Option::<.*>::and_then::<.*>$")
@@ -368,7 +369,7 @@ def m_and_then(ex, st, func, args, argtys, dest_ty):
     e = args[0]
     if e.variant == 0:
         return [("ret", none(), None)]
-    return call_closure(ex, st, args[1], [e.fields[0]])
+    return in_state_call(ex, args[1], [e.fields[0]])
 
 
 @model(r"Result::<.*>::ok$")
@@ -545,7 +546,11 @@ def m_to_le_bytes(ex, st, func, args, argtys, dest_ty):
     v = args[0]
     if is_conc(v):
         return [("ret", Struct([(v >> (8 * i)) & 0xff for i in range(n)]), None)]
-    return [("ret", Struct([(zint(v) / (1 << (8 * i))) % 256 for i in range(n)]), None)]
+    # exact linear characterisation of the little-endian bytes
+    bs = [ex.fresh_int("u8", "byte") for _ in range(n)]
+    st.pc.append(z3.And(*[z3.And(b >= 0, b <= 255) for b in bs]))
+    st.pc.append(zint(v) == sum((b * (256 ** i) for i, b in enumerate(bs)), z3.IntVal(0)))
+    return [("ret", Struct(bs), None)]
 
 
 # ------------------------------------------------------------------ slices / arrays
@@ -741,6 +746,15 @@ def m_parse_uint(ex, st, func, args, argtys, dest_ty):
     return [("ret", ok(v), z3.And(okf, *facts)), ("ret", err(Opaque("ParseIntError")), z3.Not(okf))]
 
 
+@model(r"str::<impl str>::parse::<(?!u8>|u16>|u32>|u64>|u128>|usize>|f64>)([\w:]+)>$")
+def m_parse_crate_type(ex, st, func, args, argtys, dest_ty):
+    ty = re.search(r"parse::<([\w:]+)>$", func).group(1)
+    target = ex.resolve("<%s as FromStr>::from_str" % ty, ["&str"], "?")
+    if target is None:
+        raise Unsupported("FromStr impl for %s" % ty)
+    return [("call", (target, [args[0]], None), None)]
+
+
 @model(r"str::<impl str>::parse::<f64>$")
 def m_parse_f64(ex, st, func, args, argtys, dest_ty):
     """f64::from_str accepts decimal literals and (case-insensitively) inf/infinity/nan
@@ -755,13 +769,61 @@ def m_parse_f64(ex, st, func, args, argtys, dest_ty):
 @model(r"str::<impl str>::chars$")
 def m_chars(ex, st, func, args, argtys, dest_ty):
     s = deref(args[0])
-    return [("ret", Opaque("chars", {"s": s, "rev": False, "pos": 0}), None)]
+    return [("ret", Opaque("chars", {"s": s, "rev": False, "pos": 0, "enum": False}), None)]
+
+
+@model(r"^<Chars<'_> as Iterator>::next$|^<Rev<Chars<'_>> as Iterator>::next$|^<Enumerate<Chars<'_>> as Iterator>::next$")
+def m_chars_next(ex, st, func, args, argtys, dest_ty):
+    it = deref(args[0])
+    d = it.data
+    cs = d["s"].chars
+    if cs is None:
+        raise Unsupported("iteration over an abstract string without explicit chars")
+    if d["pos"] >= len(cs):
+        return [("ret", none(), None)]
+    i = d["pos"]
+    d["pos"] += 1
+    c = cs[len(cs) - 1 - i] if d["rev"] else cs[i]
+    return [("ret", some(Struct([i, c]) if d.get("enum") else c), None)]
+
+
+@model(r"^<Chars<'_> as Iterator>::nth$")
+def m_chars_nth(ex, st, func, args, argtys, dest_ty):
+    """nth on a string with explicit chars; a symbolic index yields an If-chain char"""
+    it = deref(args[0])
+    d = it.data
+    cs = d["s"].chars
+    if cs is None:
+        raise Unsupported("nth on abstract string")
+    rest = cs[d["pos"]:]
+    n = args[1]
+    if is_conc(n):
+        d["pos"] += n + 1
+        return [("ret", some(rest[n]) if n < len(rest) else none(), None)]
+    if all(is_conc(c) for c in rest) and all(rest[k] == rest[0] + k for k in range(len(rest))):
+        out = rest[0] + n          # consecutive code points ("ABC...Z"): linear
+    else:
+        out = z3.IntVal(0)
+        for k in range(len(rest) - 1, -1, -1):
+            out = z3.If(n == k, zint(rest[k]), out)
+    inb = z3.And(n >= 0, n < len(rest))
+    return [("ret", some(out), inb), ("ret", none(), z3.Not(inb))]
+
+
+@model(r"^<Rev<Chars<'_>> as Iterator>::collect::<String>$|^<Chars<'_> as Iterator>::collect::<String>$")
+def m_chars_collect(ex, st, func, args, argtys, dest_ty):
+    d = args[0].data
+    cs = d["s"].chars
+    if cs is None:
+        raise Unsupported("collect on abstract string")
+    rest = cs[d["pos"]:] if not d["rev"] else list(reversed(cs))[d["pos"]:]
+    return [("ret", Container("string", rest), None)]
 
 
 @model(r"<Chars<'_> as Iterator>::rev$")
 def m_chars_rev(ex, st, func, args, argtys, dest_ty):
     it = args[0]
-    return [("ret", Opaque("chars", {"s": it.data["s"], "rev": True, "pos": 0}), None)]
+    return [("ret", Opaque("chars", {"s": it.data["s"], "rev": True, "pos": 0, "enum": False}), None)]
 
 
 @model(r"<Chars<'_> as Iterator>::count$")
@@ -842,9 +904,69 @@ def m_str_index(ex, st, func, args, argtys, dest_ty):
     return [("ret", Ref([sub]), None)]
 
 
+def render_log(log):
+    """chars written to a recorded formatter, when every piece is a literal or a plain
+    `{}` of a char / string with explicit chars; None if something else was written"""
+    import ast
+    out = []
+    for e in log:
+        t = e["template"]
+        if t == "write_str" or t == "literal":
+            cs = str_chars(e["args"][0])
+            if cs is None:
+                return None
+            out += cs
+            continue
+        if not (isinstance(t, Opaque) and t.what == "bytes"):
+            return None
+        b = ast.literal_eval(t.data)
+        i, argi = 0, 0
+        while i < len(b):
+            x = b[i]
+            if x == 0:
+                break
+            if x < 0x80:
+                lit = b[i + 1:i + 1 + x].decode("utf-8")
+                out += [ord(ch) for ch in lit]
+                i += 1 + x
+            elif x == 0xC0:
+                a = e["args"][argi]
+                argi += 1
+                if is_conc(a) or is_sym(a):
+                    out.append(a)       # a char
+                else:
+                    cs = str_chars(a)
+                    if cs is None:
+                        return None
+                    out += cs
+                i += 1
+            else:
+                return None
+    return out
+
+
 @model(r"as ToString>::to_string$|<str as ToOwned>::to_owned$|String::from")
 def m_to_string(ex, st, func, args, argtys, dest_ty):
-    return [("ret", Opaque("String", deref(args[0])), None)]
+    v = deref(args[0])
+    m = re.match(r"^<([\w:]+) as ToString>::to_string$", func)
+    if m and isinstance(v, Struct) and not isinstance(v, Container):
+        target = None
+        cands = [f for f in ex.by_last.get("fmt", []) if len(f.params) == 2 and norm_ty(f.params[0][1]).lstrip("&") == norm_ty(m.group(1))]
+        cands = [f for f in cands if re.search(r"^impl (std::fmt::|fmt::)?Display for", ex.source_span(*span_of(f.name)))]
+        if len(cands) == 1:
+            fcell = [Opaque("formatter", [])]
+            def cont(rv, fcell=fcell):
+                cs = render_log(fcell[0].data)
+                if cs is None:
+                    raise Unsupported("to_string: formatter output is not a plain char sequence")
+                return Container("string", cs)
+            return [("call", (cands[0], [args[0] if isinstance(args[0], Ref) else Ref([v]), Ref(fcell, (), True)], cont), None)]
+    return [("ret", Opaque("String", v), None)]
+
+
+def span_of(name):
+    m = re.search(r"<impl at ([^:]+):(\d+):(\d+): (\d+):(\d+)>", name)
+    return (m.group(1), int(m.group(2)), int(m.group(3)), int(m.group(4)), int(m.group(5)))
 
 
 # ------------------------------------------------------------------ floats
@@ -867,6 +989,11 @@ def m_f64_class(ex, st, func, args, argtys, dest_ty):
 @model(r"core::fmt::rt::Argument::<'_>::(new_display|new_debug|from_usize)")
 def m_fmt_arg(ex, st, func, args, argtys, dest_ty):
     return [("ret", Opaque("fmtarg", deref(args[0])), None)]
+
+
+@model(r"Arguments::<'_>::from_str$")
+def m_fmt_arguments_literal(ex, st, func, args, argtys, dest_ty):
+    return [("ret", Opaque("fmtargs", {"template": "literal", "args": [deref(args[0])]}), None)]
 
 
 @model(r"Arguments::<'_>::new(_const|_v1)?::<")
@@ -1019,3 +1146,380 @@ def m_clamp(ex, st, func, args, argtys, dest_ty):
         return [("ret", min(max(x, lo), hi), None)]
     zx, zl, zh = zint(x), zint(lo), zint(hi)
     return [("ret", z3.If(zx < zl, zl, z3.If(zx > zh, zh, zx)), None)]
+
+
+# ------------------------------------------------------------------ containers
+# Vec / VecDeque / HashMap / String are Python lists (class Container) living in the
+# path state; element values may be symbolic, the *shape* (length, which key matches) is
+# concrete on a path: lookups by a symbolic key call ex.decide(), which forks the path.
+
+from .mirexec import ForkOn
+
+
+class Container(Struct):
+    def __init__(self, kind, items=()):
+        super().__init__(items)
+        self.kind = kind
+
+    def __deepcopy__(self, memo):
+        c = Container(self.kind, [copy.deepcopy(x, memo) for x in self])
+        memo[id(self)] = c
+        return c
+
+    def __repr__(self):
+        return "%s%s" % (self.kind, list.__repr__(self))
+
+
+def cref(r):
+    """innermost Ref whose target is a Container"""
+    while isinstance(r, Ref) and isinstance(r.get(), Ref):
+        r = r.get()
+    return r
+
+
+@model(r"^Vec::<.*>::new$|^std::vec::Vec::<.*>::new$")
+def m_vec_new(ex, st, func, args, argtys, dest_ty):
+    return [("ret", Container("vec"), None)]
+
+
+@model(r"^Vec::<.*>::push$|^std::vec::Vec::<.*>::push$")
+def m_vec_push(ex, st, func, args, argtys, dest_ty):
+    deref(args[0]).append(args[1])
+    return [("ret", Struct([]), None)]
+
+
+@model(r"^Vec::<.*>::len$|^std::vec::Vec::<.*>::len$|VecDeque::<.*>::len$")
+def m_vec_len(ex, st, func, args, argtys, dest_ty):
+    return [("ret", len(deref(args[0])), None)]
+
+
+@model(r"^Vec::<.*>::is_empty$|VecDeque::<.*>::is_empty$")
+def m_vec_is_empty(ex, st, func, args, argtys, dest_ty):
+    return [("ret", len(deref(args[0])) == 0, None)]
+
+
+@model(r"^<Vec<.*> as Deref>::deref$|^<Vec<.*> as DerefMut>::deref_mut$")
+def m_vec_deref(ex, st, func, args, argtys, dest_ty):
+    return [("ret", cref(args[0]), None)]
+
+
+@model(r"^<\[.*\] as Index<std::ops::RangeFrom<usize>>>::index$|^<\[.*\] as Index<RangeFrom<usize>>>::index$")
+def m_slice_from(ex, st, func, args, argtys, dest_ty):
+    arr = deref(args[0])
+    start = deref(args[1])
+    start = start[0] if isinstance(start, Struct) else start
+    if not is_conc(start):
+        raise Unsupported("symbolic slice start")
+    if start > len(arr):
+        return [("panic", "range start index out of range for slice", None)]
+    return [("ret", Ref([Container("slice", list(arr)[start:])]), None)]
+
+
+@model(r"^<\[.*\] as Index<RangeTo<usize>>>::index$|^<\[.*; \d+\] as Index<RangeTo<usize>>>::index$")
+def m_slice_to(ex, st, func, args, argtys, dest_ty):
+    arr = deref(args[0])
+    end = deref(args[1])
+    end = end[0] if isinstance(end, Struct) else end
+    if not is_conc(end):
+        u = ex.unique_value(st, end)
+        if u is None:
+            from .mirexec import NeedConcrete
+            vals = ex.enumerate_values(st, end, 40)
+            raise ForkOn(end == vals[0])
+        end = u
+    if end > len(arr):
+        return [("panic", "range end index out of range for slice", None)]
+    return [("ret", Ref([Container("slice", list(arr)[:end])]), None)]
+
+
+@model(r"^<&\[u8\] as Into<Vec<u8>>>::into$|^<Vec<u8> as From<&\[u8\]>>::from$|slice::<impl \[.*\]>::to_vec$")
+def m_slice_to_vec(ex, st, func, args, argtys, dest_ty):
+    return [("ret", Container("vec", list(deref(args[0]))), None)]
+
+
+@model(r"core::slice::<impl \[.*\]>::chunks$")
+def m_chunks(ex, st, func, args, argtys, dest_ty):
+    n = args[1]
+    if not is_conc(n):
+        raise Unsupported("symbolic chunk size")
+    return [("ret", Opaque("chunks", {"arr": list(deref(args[0])), "n": n, "pos": 0}), None)]
+
+
+@model(r"^<Chunks<'_, .*> as Iterator>::next$")
+def m_chunks_next(ex, st, func, args, argtys, dest_ty):
+    it = deref(args[0])
+    d = it.data
+    if d["pos"] >= len(d["arr"]):
+        return [("ret", none(), None)]
+    chunk = d["arr"][d["pos"]:d["pos"] + d["n"]]
+    d["pos"] += d["n"]
+    return [("ret", some(Ref([Container("slice", chunk)])), None)]
+
+
+@model(r" as IntoIterator>::into_iter$")
+def m_into_iter(ex, st, func, args, argtys, dest_ty):
+    return [("ret", args[0], None)]
+
+
+@model(r"^<std::ops::Range<usize> as Iterator>::step_by$")
+def m_step_by(ex, st, func, args, argtys, dest_ty):
+    r = args[0]
+    lo, hi = r[0], r[1]
+    if not (is_conc(lo) and is_conc(hi) and is_conc(args[1])):
+        raise Unsupported("symbolic range in step_by")
+    return [("ret", Opaque("range_iter", {"cur": lo, "end": hi, "step": args[1]}), None)]
+
+
+@model(r"^<StepBy<std::ops::Range<usize>> as Iterator>::next$|^<std::ops::Range<usize> as Iterator>::next$")
+def m_range_next(ex, st, func, args, argtys, dest_ty):
+    it = deref(args[0])
+    if isinstance(it, Struct):
+        # plain Range { start, end } stored as a struct
+        lo, hi = it[0], it[1]
+        if not (is_conc(lo) and is_conc(hi)):
+            raise Unsupported("symbolic range iteration")
+        if lo >= hi:
+            return [("ret", none(), None)]
+        it[0] = lo + 1
+        return [("ret", some(lo), None)]
+    d = it.data
+    if d["cur"] >= d["end"]:
+        return [("ret", none(), None)]
+    v = d["cur"]
+    d["cur"] += d["step"]
+    return [("ret", some(v), None)]
+
+
+@model(r"core::slice::<impl \[.*\]>::iter_mut$")
+def m_iter_mut(ex, st, func, args, argtys, dest_ty):
+    base = cref(args[0])
+    return [("ret", Opaque("iter_mut", {"base": base, "pos": 0, "enum": False}), None)]
+
+
+@model(r"^<std::slice::IterMut<'_, .*> as Iterator>::enumerate$|^<Chars<'_> as Iterator>::enumerate$")
+def m_enumerate(ex, st, func, args, argtys, dest_ty):
+    it = args[0]
+    it.data["enum"] = True
+    return [("ret", it, None)]
+
+
+@model(r"^<Enumerate<std::slice::IterMut<'_, .*>> as Iterator>::next$|^<std::slice::IterMut<'_, .*> as Iterator>::next$")
+def m_iter_mut_next(ex, st, func, args, argtys, dest_ty):
+    it = deref(args[0])
+    d = it.data
+    base = d["base"]
+    arr = base.get()
+    if d["pos"] >= len(arr):
+        return [("ret", none(), None)]
+    i = d["pos"]
+    d["pos"] += 1
+    r = Ref(base.cell, base.path + (i,), True)
+    return [("ret", some(Struct([i, r]) if d["enum"] else r), None)]
+
+
+# ---- VecDeque
+
+@model(r"VecDeque::<.*>::new$|<VecDeque<.*> as (std::default::)?Default>::default$")
+def m_deque_new(ex, st, func, args, argtys, dest_ty):
+    return [("ret", Container("deque"), None)]
+
+
+@model(r"VecDeque::<.*>::push_back$")
+def m_deque_push_back(ex, st, func, args, argtys, dest_ty):
+    deref(args[0]).append(args[1])
+    return [("ret", Struct([]), None)]
+
+
+@model(r"VecDeque::<.*>::get$")
+def m_deque_get(ex, st, func, args, argtys, dest_ty):
+    base = cref(args[0])
+    dq = base.get()
+    i = args[1]
+    if not is_conc(i):
+        raise Unsupported("symbolic VecDeque index")
+    if i < len(dq):
+        return [("ret", some(Ref(base.cell, base.path + (i,))), None)]
+    return [("ret", none(), None)]
+
+
+@model(r"VecDeque::<.*>::drain::<std::ops::Range<usize>>$")
+def m_deque_drain(ex, st, func, args, argtys, dest_ty):
+    dq = deref(args[0])
+    r = args[1]
+    lo, hi = r[0], r[1]
+    if not (is_conc(lo) and is_conc(hi)):
+        raise Unsupported("symbolic drain range")
+    if hi > len(dq):
+        return [("panic", "drain range out of bounds", None)]
+    removed = dq[lo:hi]
+    del dq[lo:hi]
+    return [("ret", Opaque("drain", removed), None)]
+
+
+# ---- HashMap<K, V> with possibly symbolic keys: list of [key, value]
+
+@model(r"HashMap::<.*>::new$")
+def m_map_new(ex, st, func, args, argtys, dest_ty):
+    return [("ret", Container("map"), None)]
+
+
+def map_find(ex, st, mp, key):
+    """index of the entry whose key equals `key` (forks until decided), or None"""
+    for i, pair in enumerate(mp):
+        k = pair[0]
+        eq = (k == key) if (is_conc(k) and is_conc(key)) else (zint(k) == zint(key))
+        if ex.decide(st, eq):
+            return i
+    return None
+
+
+@model(r"HashMap::<.*>::entry$")
+def m_map_entry(ex, st, func, args, argtys, dest_ty):
+    return [("ret", Opaque("entry", {"map": cref(args[0]), "key": args[1]}), None)]
+
+
+@model(r"hash_map::Entry::<.*>::or_default$")
+def m_entry_or_default(ex, st, func, args, argtys, dest_ty):
+    e = args[0]
+    base = e.data["map"]
+    mp = base.get()
+    i = map_find(ex, st, mp, e.data["key"])
+    if i is None:
+        if "VecDeque" in func:
+            dv = Container("deque")
+        elif re.search(r", (u\d+|usize)>::or_default", func):
+            dv = 0
+        else:
+            raise Unsupported("default value for %s" % func)
+        mp.append(Struct([e.data["key"], dv]))
+        i = len(mp) - 1
+    return [("ret", Ref(base.cell, base.path + (i, 1), True), None)]
+
+
+@model(r"HashMap::<.*>::get_mut::<.*>$|HashMap::<.*>::get::<.*>$")
+def m_map_get(ex, st, func, args, argtys, dest_ty):
+    base = cref(args[0])
+    mp = base.get()
+    i = map_find(ex, st, mp, deref(args[1]))
+    if i is None:
+        return [("ret", none(), None)]
+    return [("ret", some(Ref(base.cell, base.path + (i, 1), True)), None)]
+
+
+@model(r"HashMap::<.*>::remove::<.*>$")
+def m_map_remove(ex, st, func, args, argtys, dest_ty):
+    mp = deref(args[0])
+    i = map_find(ex, st, mp, deref(args[1]))
+    if i is None:
+        return [("ret", none(), None)]
+    pair = mp.pop(i)
+    return [("ret", some(pair[1]), None)]
+
+
+@model(r"HashMap::<.*>::keys$")
+def m_map_keys(ex, st, func, args, argtys, dest_ty):
+    return [("ret", Opaque("keys", [p[0] for p in deref(args[0])]), None)]
+
+
+@model(r"hash_map::Keys<.*> as Iterator>::any::<.*>$")
+def m_keys_any(ex, st, func, args, argtys, dest_ty):
+    it = deref(args[0])
+    conds = []
+    for k in it.data:
+        res = call_closure(ex, st, args[1], [Ref([k])])
+        if len(res) != 1 or res[0][0] != "ret":
+            raise Unsupported("any() predicate forks")
+        conds.append(res[0][1])
+    return [("ret", zor(*conds) if conds else False, None)]
+
+
+# ---- closures as values
+
+@model(r" as Fn<\(.*\)>>::call$| as FnMut<\(.*\)>>::call_mut$| as FnOnce<\(.*\)>>::call_once$")
+def m_fn_call(ex, st, func, args, argtys, dest_ty):
+    tup = args[1]
+    return in_state_call(ex, args[0], list(tup))
+
+
+@model(r"core::bool::<impl bool>::then::<.*>$")
+def m_bool_then(ex, st, func, args, argtys, dest_ty):
+    if ex.decide(st, args[0]):
+        return in_state_call(ex, args[1], [], some)
+    return [("ret", none(), None)]
+
+
+@model(r"Option::<.*>::get_or_insert$")
+def m_get_or_insert(ex, st, func, args, argtys, dest_ty):
+    base = cref(args[0])
+    e = base.get()
+    if e.variant == 0:
+        base.set(Enum(e.ty, 1, [args[1]]))
+    return [("ret", Ref(base.cell, base.path + (0,), True), None)]
+
+
+@model(r"char::methods::<impl char>::from_u32$|core::char::from_u32$")
+def m_char_from_u32(ex, st, func, args, argtys, dest_ty):
+    v = args[0]
+    valid = zand(zor(zint(v) < 0xD800, zint(v) > 0xDFFF), zint(v) <= 0x10FFFF) if not is_conc(v) else ((v < 0xD800 or v > 0xDFFF) and v <= 0x10FFFF)
+    return [("ret", some(v), valid), ("ret", none(), znot(valid))]
+
+
+@model(r"^<(u8|u16|u32|u64|u128|usize|bool) as (std::default::)?Default>::default$")
+def m_prim_default(ex, st, func, args, argtys, dest_ty):
+    return [("ret", False if "<bool" in func else 0, None)]
+
+
+@model(r"^<&(u8|u16|u32|u64|u128|usize) as (std::ops::)?(Rem|Div|Add|Sub|Mul)<(u8|u16|u32|u64|u128|usize)>>::(rem|div|add|sub|mul)$")
+def m_ref_int_ops(ex, st, func, args, argtys, dest_ty):
+    ty = re.match(r"^<&(\w+) as", func).group(1)
+    op = func.rsplit("::", 1)[1]
+    a = deref(args[0])
+    if op in ("rem", "div"):
+        b = args[1]
+        if is_conc(b) and b == 0:
+            return [("panic", "division by zero", None)]
+        return [("ret", ex.binop("Rem" if op == "rem" else "Div", a, b, ty, ty, st), None)]
+    return m_int_ops(ex, st, func.replace("<&", "<"), [a, args[1]], argtys, dest_ty)
+
+
+# ------------------------------------------------------------------ String / Chars with explicit chars
+
+def str_chars(s):
+    s = deref(s)
+    if isinstance(s, Container) and s.kind == "string":
+        return list(s)
+    if isinstance(s, SymStr) and s.chars is not None:
+        return list(s.chars)
+    return None
+
+
+@model(r"^String::new$")
+def m_string_new(ex, st, func, args, argtys, dest_ty):
+    return [("ret", Container("string"), None)]
+
+
+@model(r"^String::push$")
+def m_string_push(ex, st, func, args, argtys, dest_ty):
+    deref(args[0]).append(args[1])
+    return [("ret", Struct([]), None)]
+
+
+@model(r"^String::len$")
+def m_string_len(ex, st, func, args, argtys, dest_ty):
+    """byte length: exact when every char is known to be ASCII on this path"""
+    cs = deref(args[0])
+    total = 0
+    for c in cs:
+        if is_conc(c):
+            total += len(chr(c).encode("utf-8"))
+        else:
+            if not ex.decide(st, c < 128):
+                raise Unsupported("String::len with a possibly non-ASCII symbolic char")
+            total += 1
+    return [("ret", total, None)]
+
+
+@model(r"^<String as Deref>::deref$")
+def m_string_deref(ex, st, func, args, argtys, dest_ty):
+    cs = deref(args[0])
+    return [("ret", Ref([SymStr("own", chars=list(cs))]), None)]
